@@ -54,7 +54,7 @@ func ProtoMonitor(sc *Scenario, w *World, x *Exec) []Violation {
 				continue
 			}
 			rawClient := w.Vals["raw:"+ms.Name+":client"] != nil // frames of type ClientToServer come from a script
-			rawServer := w.Vals["raw:"+ms.Name+":server"] != nil
+			rawServer := w.Vals["raw:"+ms.Name+":server"] != nil || w.Vals["rawserver-net:"+ms.net.Label] != nil
 			neg := carrierNegotiated(ms)
 			streams := map[int64]*tunnelStreamInfo{}
 			var lastNew int64 = -1 << 62
@@ -333,7 +333,7 @@ func WinMonitor(sc *Scenario, w *World, x *Exec) []Violation {
 		for _, ms := range n.Streams {
 			frames := w.Tap.TunnelFrames(ms.Name)
 			rawClient := w.Vals["raw:"+ms.Name+":client"] != nil
-			rawServer := w.Vals["raw:"+ms.Name+":server"] != nil
+			rawServer := w.Vals["raw:"+ms.Name+":server"] != nil || w.Vals["rawserver-net:"+ms.net.Label] != nil
 			type dirState struct {
 				sent    int // data bytes put on the wire by the sender
 				credits []*Frame
